@@ -987,6 +987,9 @@ class AtLeast(puan.Proposition):
         if not self.generated_id:
             d['id'] = self.id
 
+        if self.sign != (puan.Sign.POSITIVE if self.value > 0 else puan.Sign.NEGATIVE):
+            d['sign'] = int(self.sign)
+
         return d
 
     def to_b64(self, str_decoding: str = 'utf8') -> str:
@@ -1041,7 +1044,8 @@ class AtLeast(puan.Proposition):
         return AtLeast(
             value=data.get('value', 1),
             propositions=list(map(functools.partial(from_json, class_map=class_map), propositions)),
-            variable=data.get('id', None)
+            variable=data.get('id', None),
+            sign=data.get('sign', None),
         )
 
     @staticmethod
@@ -1490,6 +1494,7 @@ class AtMost(AtLeast):
         """
         d = super().to_json()
         d['value'] = -1*self.value
+        d.pop('sign', None)
         return d
 
 class All(AtLeast):
